@@ -53,7 +53,8 @@ RULE = ("A case is a loop nest plus a collection configuration. Part 'kernels': 
         "the 2-rank output Z[X, K] whose fibers are then the populate destinations -- (1-4 instances with their own "
         "operands), leaf fibers with explicit zeros or no "
         "element at all, a destination that may be pre-populated (explicit zeros too) and shared between the "
-        "instances, and a body plan (+=, <<= v, <<= 0, leave alone) per offered coordinate. Part 'flattened': the same "
+        "instances (its rank declared uncompressed, format 'U', in a third of the populate cases: then never "
+        "inserting), and a body plan (+=, <<= v, <<= 0, leave alone) per offered coordinate. Part 'flattened': the same "
         "operators (without project) at rank N below plain loops over an operand A[(X,) M, K, N] whose ranks M, K were "
         "flattened (Tensor.flattenRanks(depth 0 or 1, levels=1): tuple coordinates (m, k)), the flattened rank renamed "
         "'MK' with setRankIds and its shape registered with Metrics.associateShape((M, K)); every point column of the "
@@ -98,8 +99,12 @@ RULE = ("A case is a loop nest plus a collection configuration. Part 'kernels': 
 
 ASSUMPTIONS = ["operands, destinations and the output are built / tiled / swizzled before Metrics.beginCollect; only the "
                "loop nest runs inside a session",
-               "every rank is declared compressed (format C, the default); positions in uncompressed fibers are not "
-               "examined",
+               "every rank is declared compressed (format C, the default) except the destination rank of the populate "
+               "operators in 'opnests' / 'small', which is declared uncompressed (setFormat(rank, 'U')) in a third of the "
+               "cases while the source stays compressed: such a destination is updated in place, is never an inserting "
+               "populate, and every destination row must carry the index the element has in z's stored lists at "
+               "that moment; SOURCE fibers of a rank declared 'U' (they present their whole active range, absent "
+               "coordinates included) are not generated",
                "destinations are created with a shape (the populate operator asserts an authoritative shape when it "
                "inserts while collecting)",
                "a dense by-reference walk reads no element: the rows of its own iter trace are not asserted (the library "
@@ -495,6 +500,8 @@ class OpProgram:
                     for c, v in nest.get("z", []):
                         ref = self.zout.getRoot().getPayloadRef(x, c)
                         ref <<= v
+                if nest.get("z_fmt") == "U":
+                    self.zout.setFormat(self.inner, "U")
                 self.driver = self.zout
             else:
                 self.driver = _leaf_tensor("X", dense["n"], outer or [], "D")
@@ -516,6 +523,11 @@ class OpProgram:
         if self.has_z and self.zout is None:
             nz = 1 if nest.get("z_shared", True) else ninst
             zs = [_leaf_tensor(self.inner, zshape, nest.get("z", []), "Z") for _ in range(nz)]
+            if nest.get("z_fmt") == "U":
+                # destination rank declared uncompressed (source stays compressed): updated in place,
+                # never an inserting populate
+                for t in zs:
+                    t.setFormat(self.inner, "U")
             self.z = [zs[i % nz] for i in range(ninst)]
         self.cur_z = None
         self.order = (["X"] if self.driver is not None else []) + [self.inner]
@@ -609,7 +621,7 @@ class OpProgram:
         plan = self._plan(i)
         if self.has_z:
             z = self._z(i)
-            entry["z"] = {"coords": list(z.coords), "compressed": True}
+            entry["z"] = {"coords": list(z.coords), "compressed": self.nest.get("z_fmt") != "U"}
             it = z << src
         else:
             it = src
@@ -1406,6 +1418,8 @@ def opnest_cases(draw):
     if op.startswith("lshift"):
         nest["z"] = draw(leaf_elems(zshape, p_empty=3))
         nest["z_shared"] = draw(st.sampled_from([True, True, False]))
+        if draw(st.sampled_from([False, True, False])):
+            nest["z_fmt"] = "U"
     nranks = (1 if outer is not None else 0) + 1
     return {"nest": nest, "cfg": draw(configs(nranks, noprereg_last=proj is not None))}
 
@@ -1432,6 +1446,11 @@ def check_opnest(case, rec):
                 any(t.rows and any(pt[0] != 0 for _, pt, _ in t.rows) for (r, ty), t in traces.items()
                     if prog.levels[r] == 1))
     rec.cls("dest-prepopulated", bool(nest.get("z")))
+    ushaped = nest.get("z_fmt") == "U" and any(
+        e["z"] is not None and e["z"]["coords"] and e["bodies"] and e["bodies"][0] < e["z"]["coords"][-1]
+        for e in ses.log)
+    rec.cls("dest-uncompressed", nest.get("z_fmt") == "U")
+    rec.cls("dest-uncompressed-insert-in-place", ushaped)
     rec.cls("project-start_pos", bool(nest["proj"]) and nest["proj"]["start"] is not None)
     rec.cls("project-interval", bool(nest["proj"]) and nest["proj"]["interval"] is not None)
 
@@ -1500,6 +1519,13 @@ def enumerate_small(tier):
                 for z in _small_fibers([0, -1]):
                     yield {"nest": {"op": op, "shape": 3, "outer": None, "proj": None, "z": z, "z_shared": True,
                                     "inst": [{"a": a, "plan": [["add", 1]] * 3}]}, "cfg": cfg_for(op)}
+                    # the same with the destination rank declared uncompressed (quick: only where the populate
+                    # inserts below the destination's stored maximum, i.e. where the format matters)
+                    first = [c for c, v in a if v != 0][:1]
+                    if tier != "quick" or (first and z and first[0] < z[-1][0]):
+                        yield {"nest": {"op": op, "shape": 3, "outer": None, "proj": None, "z": z, "z_shared": True,
+                                        "z_fmt": "U", "inst": [{"a": a, "plan": [["add", 1]] * 3}]},
+                               "cfg": cfg_for(op)}
             else:
                 for b in src:
                     yield {"nest": {"op": op, "shape": 3, "outer": None, "proj": None,
